@@ -417,10 +417,18 @@ def random_module(rng: random.Random, max_claims=6, with_imports=True, syms=SYMS
         if any(E(th.conc) == E(c.conc) for c, _ in chosen):
             continue
         chosen.append((th, d))
+    order_ = list(range(len(chosen)))
+    if len(chosen) >= 2 and rng.random() < 0.04:
+        # the proofs are listed in another order than the claims: every Publish discharges the NEXT claim, so the toolkit has to refuse
+        # this module (nothing is serialised then); if it does not, the checker will
+        while order_ == sorted(order_):
+            rng.shuffle(order_)
+        tags.add('proofs_listed_out_of_claim_order')
     for th, d in chosen:
         mod.add_claim(th.conc)
-        mod.add_proof_expression(th)
         desc.append(f'claim {th.conc}  by {d}')
+    for i_ in order_:
+        mod.add_proof_expression(chosen[i_][0])
     if len(chosen) >= 2:
         tags.add('claims>=2')
     return Built(mod, tags, desc, pool)
